@@ -5,10 +5,18 @@ Input lines:  "#case <id>"  resets the engine;  every other line is
 Output: "#case" lines are echoed; one model line per operation.
 -/
 import LA.Drive.Lnk
+import LA.Drive.Enc
+import LA.Drive.Trad
+import LA.Drive.Pass
+import LA.Drive.ZipEnc
 open LA
 
 def engines : List (String × Engine) := [
-  ("lnk", LA.Lnk.engine)
+  ("lnk", LA.Lnk.engine),
+  ("enc", LA.EncDrive.engine),
+  ("trad", LA.TradDrive.engine),
+  ("pass", LA.PassDrive.engine),
+  ("zipenc", LA.ZipEncDrive.engine)
 ]
 
 partial def loop (e : Engine) (h : IO.FS.Stream) (out : IO.FS.Stream) (s : e.σ) : IO Unit := do
